@@ -327,10 +327,18 @@ func exoDocs() []interface{} {
 	_ = dn.Decode(&num)
 	var ml map[string][]*hwInner
 	_ = json.Unmarshal([]byte(`{"x":[{"Name":"a"},null],"y":[]}`), &ml)
-	return []interface{}{d, &d, m, sm, arr, &arr, num, ml, json.Number("7"), json.RawMessage(`[1]`), []map[exoColor]int{m, nil}}
+	// (appended: the corpus refers to the documents above by index)
+	named := map[string]interface{}{"l": exoList{3.0, 1.0, 2.0}, "m": exoMap{"a": 1.0, "b": exoList{"x"}}, "s": exoStrings{"b", "a"}, "n": []interface{}{exoList{1.0}, exoList{}}}
+	return []interface{}{d, &d, m, sm, arr, &arr, num, ml, json.Number("7"), json.RawMessage(`[1]`), []map[exoColor]int{m, nil}, named, exoList{exoMap{"k": 2.0}, exoMap{"k": 1.0}}}
 }
 
-var exoExprs = []string{"Colors.red", "colors.red", "red", "blue", "a", "x", "x[0]", "x[0].Name", "StrMap.a", "Lists.x", "Lists.x[0]", "sort(Lists.x)", "Arr[0]", "Arr[*]", "Arr[1:]", "Arr[]", "length(Arr)", "Num", "abs(Num)", "Raw.a", "PP.Name", "PP.Tags[0]", "Any.a", "Any.a[1]",
+// named container types, as document libraries define them (bson.A, bson.M, gin.H, ...)
+type exoList []interface{}
+type exoMap map[string]interface{}
+type exoStrings []string
+
+var exoExprs = []string{"length(l)", "reverse(l)", "sort_by(l, &@)", "max_by(l, &@)", "min_by(@, &k)", "sort_by(@, &k)", "map(&@, l)", "contains(l, `1`)", "not_null(l)", "to_array(l)", "to_array(m)", "sort(l)", "sort(s)", "join(',', s)", "merge(m, m)", "keys(m)", "values(m)", "m.b", "m.b[0]", "l[0]", "l[1:]", "l[*]", "l[]", "n[]", "n[*][0]", "l[?@ > `1`]", "m.*", "length(m)", "reverse(s)", "max(l)", "sum(l)", "avg(l)", "to_string(l)", "to_string(m)", "type(l)", "type(m)", "l == l", "[l, m]", "{a: l}", "l | [0]", "abs(l[0])", "reverse(@)", "length(n)", "map(&length(@), n)",
+	"Colors.red", "colors.red", "red", "blue", "a", "x", "x[0]", "x[0].Name", "StrMap.a", "Lists.x", "Lists.x[0]", "sort(Lists.x)", "Arr[0]", "Arr[*]", "Arr[1:]", "Arr[]", "length(Arr)", "Num", "abs(Num)", "Raw.a", "PP.Name", "PP.Tags[0]", "Any.a", "Any.a[1]",
 	"keys(Colors)", "values(StrMap)", "*", "Colors.*", "Nested.red.k.Name", "Nested.*.*.Name", "Nested.red", "Empty.red", "keys(Empty)", "U8[0]", "length(U8)", "abs(F32)", "abs(I)", "abs(U)", "I > `1`", "I == `3`", "to_string(@)", "to_string(Colors)", "length(@)", "keys(@)", "values(@)",
 	"[0]", "[*]", "[]", "[1:]", "[-1]", "[::-1]", "@ == @", "sort(Arr)", "sum(Arr)", "avg(Arr)", "max(Arr)", "max(U8)", "merge(StrMap, Colors)", "merge(@, @)", "type(Colors)", "type(Arr)", "type(Num)", "type(@)", "map(&@, Arr)", "reverse(Arr)", "reverse(@)", "join(',', Arr)", "contains(Arr, `1`)", "contains(@, `1`)",
 	"not_null(Colors)", "Colors || Arr", "!Colors", "!Empty", "!@", "Arr[?@ > `1`]", "[?@ > `1`]", "[?red]", "[*].red", "to_array(Colors)", "to_array(@)", "to_number(Num)", "to_number(@)", "a", "l", "l[0]", "sum(l)", "big", "abs(big)", "a > `1`", "sort_by(@, &@)", "max_by(@, &@)", "sort_by(Arr, &@)",
@@ -355,6 +363,18 @@ func predExoticDoc(c Case) (r Result) {
 		r.Got = fmt.Sprint(p)
 		return
 	}
+	unchanged := func() bool {
+		// the document is read-only whatever Go types it is made of: compare with one built afresh
+		if !reflect.DeepEqual(docs[idx], exoDocs()[idx]) {
+			r.Violation = fmt.Sprintf("Search modified a document of type %T", docs[idx])
+			r.Expected, r.Got = fmt.Sprintf("%#v", exoDocs()[idx]), fmt.Sprintf("%#v", docs[idx])
+			return false
+		}
+		return true
+	}
+	if !unchanged() {
+		return
+	}
 	comp, err, pan := libCompile(expr)
 	if pan != nil || err != nil {
 		return
@@ -363,6 +383,9 @@ func predExoticDoc(c Case) (r Result) {
 		if p := safely(func() { _, _ = comp.Search(docs[idx]) }); p != nil {
 			r.Violation = fmt.Sprintf("a compiled Search panicked on a JSON-decoded document of type %T", docs[idx])
 			r.Got = fmt.Sprint(p)
+			return
+		}
+		if !unchanged() {
 			return
 		}
 	}
@@ -578,5 +601,83 @@ func TestC15NonFinitePipe(t *testing.T) {
 	st := statsFor("C15")
 	st.mu.Lock()
 	st.Exhaustive["C15.non-finite-pipe"] = fmt.Sprintf("%d first stages yielding +Inf, -Inf or NaN (bare, in lists, in objects) x %d second stages: %d pipes, library against library", len(as), len(bs), n)
+	st.mu.Unlock()
+}
+
+// ---------------------------------------------------------------------------
+// C13 ("... and equals the result of the one-shot Search function for the same expression and
+// document") on root documents that are nil in every way Go offers: the two entry points are
+// twins, and a conversion added to one of them shows only on such a root.
+
+func nilRootDocs() []interface{} {
+	var nilIface interface{}
+	return []interface{}{(*hwDoc)(nil), (*hwInner)(nil), []*hwDoc{nil}, hwDoc{}, &hwDoc{}, nilIface, (*[]string)(nil), map[string]interface{}(nil), []interface{}(nil), (*map[string]interface{})(nil), []string(nil), (**hwInner)(nil)}
+}
+
+var nilRootExprs = []string{"@", "@ == `null`", "@ != `null`", "type(@)", "not_null(@, 'd')", "!@", "@ || 'x'", "@ && 'x'", "Name", "[@]", "{a: @}", "length(@)", "to_string(@)", "@.Name", "[0]", "*", "keys(@)", "to_array(@)", "@ | type(@)", "[@, @][0] == `null`",
+	"[*]", "[]", "[?@]", "[0:1]", "@[0]", "[0].Name", "merge(@, @)", "values(@)", "contains(@, 'a')", "reverse(@)", "sort(@)", "map(&@, @)", "join(',', @)", "not_null(@)", "[@][?@]", "@ == @", "Items", "Items[0]", "Ptr.Name", "to_number(@)"}
+
+func init() { predicates["nilroot"] = predNilRoot }
+
+func predNilRoot(c Case) (r Result) {
+	expr := c.expr()
+	idx := 0
+	if v, ok := c.Extra["doc"].(float64); ok {
+		idx = int(v)
+	}
+	docs := nilRootDocs()
+	if idx < 0 || idx >= len(docs) {
+		r.Discard = "HARNESS:bad-doc-index"
+		return
+	}
+	doc := docs[idx]
+	comp, cerr, pan := libCompile(expr)
+	if cerr != nil || pan != nil {
+		r.Discard = "does-not-compile"
+		return
+	}
+	r.Nontrivial = true
+	render := func(o libOut) string {
+		if o.Panic != nil {
+			return "panic"
+		}
+		if o.Err != nil {
+			return "error"
+		}
+		n, err := normalise(o.Val)
+		if err != nil {
+			return fmt.Sprintf("unserialisable %T", o.Val)
+		}
+		return ref.Canon(n)
+	}
+	one := libSearch(expr, doc)
+	for i := 0; i < 2; i++ {
+		var got libOut
+		got.Panic = safely(func() { got.Val, got.Err = comp.Search(doc) })
+		if got.Panic != nil || one.Panic != nil {
+			r.Violation = fmt.Sprintf("Search panicked on a nil root document of type %T", doc)
+			r.Got = showOut(got) + " / " + showOut(one)
+			return
+		}
+		if render(got) != render(one) {
+			r.Violation = fmt.Sprintf("compiled and one-shot Search differ on a nil root document of type %T", doc)
+			r.Expected, r.Got = "one-shot: "+render(one), "compiled: "+render(got)
+			return
+		}
+	}
+	return
+}
+
+func TestC13NilRoots(t *testing.T) {
+	n := 0
+	for i := range nilRootDocs() {
+		for _, e := range nilRootExprs {
+			run(t, withExpr(Case{Property: "C13", Kind: "nilroot", Extra: map[string]interface{}{"doc": float64(i)}}, e))
+			n++
+		}
+	}
+	st := statsFor("C13")
+	st.mu.Lock()
+	st.Exhaustive["C13.nil-roots"] = fmt.Sprintf("%d expressions that look at the root x %d root documents that are nil, typed nil or zero: %d cases, compiled (twice) against one-shot", len(nilRootExprs), len(nilRootDocs()), n)
 	st.mu.Unlock()
 }
